@@ -30,7 +30,7 @@ TABLES = ['A', 'A2', 'B', 'C', 'D', 'E']
 ENUMS = ['E1', 'E1c', 'E2', 'E3']
 GROUPS = ['G1', 'G2', 'G3']
 REFS = ['R1', 'R1c', 'R2', 'R3', 'R4', 'R5']  # R3: tables in no database; R4: tables in another database; R5: inline
-STICKY = ['S1', 'S2']
+STICKY = ['S1', 'S2', 'S3']      # S3 has empty text: a falsy object
 PROJ = ['P1', 'P2']
 BAD = ['X1', 'X2']
 OBJS = TABLES + ENUMS + GROUPS + REFS + STICKY + PROJ + BAD
@@ -82,6 +82,7 @@ class World:
         self.db2.add(self.in2b)
         o['R4'] = Reference('>', self.in2a.columns[0], self.in2b.columns[0])
         o['S1'], o['S2'] = StickyNote('s', 'one'), StickyNote('s', 'one')
+        o['S3'] = StickyNote('empty', '')
         o['P1'], o['P2'] = Project('p'), Project('p')
         o['X1'], o['X2'] = object(), 'a string'
         o['K1'], o['K2'], o['K3'] = Column('k1', 'int'), Column('k2', 'int'), Column('id', 'int')
